@@ -32,6 +32,10 @@ resf = os.path.join(sd, 'RESULTS.json')
 results = json.load(open(resf)) if os.path.exists(resf) else {}
 for mid in ids:
     meta = json.load(open(os.path.join(sd, mid, 'meta.json')))
+    if meta.get('retired'):
+        print(mid, 'retired:', meta['retired'][:150])
+        results[mid] = {'retired': meta['retired']}
+        continue
     todo = checks or [meta['breaks_property']]
     d = tempfile.mkdtemp(prefix='mut.', dir='/tmp')
     try:
